@@ -599,6 +599,9 @@ pub fn run(ops: &str, out: &mut dyn Write, mon: &mut dyn Write) {
                     _ => outs.push("bad-op".to_string()),
                 }
                 // canonical order within one op: callbacks first, then transmissions
+                // the op in which the task dies is canonicalised to the single line `panic`
+                // (what it emitted before unwinding depends on where exactly the unwinding started)
+                let outs = if outs.iter().any(|l| l == "panic") { vec!["panic".to_string()] } else { outs };
                 let (cbs, txs): (Vec<String>, Vec<String>) = outs.into_iter().partition(|l| !l.starts_with("tx"));
                 let mut all = cbs;
                 all.extend(txs);
